@@ -31,7 +31,7 @@ ASSUMPTIONS = [
     'text round trip: coefficients below EQ_TOLERANCE are not printed by __str__, so equality after a plain-text cycle is required up to such terms (exact for all other terms)',
 ]
 OPEN_STATEMENTS = [
-    'parse_print_roundtrip / text_file_roundtrip are proved under the contract CoefOK (Python float()/complex() read the format() text of every printed coefficient back; no white space, brackets, colon or leading + in that text): the contract itself is checked on the real functions by the correspondence run, not proved',
+    'for INTEGER coefficients CoefOK is discharged (coef_contract_int) up to the agreement of the float table with the exact integer model, which the run checks on the real float(); for decimal / exponent / complex coefficient texts: parse_print_roundtrip / text_file_roundtrip are proved under the contract CoefOK (Python float()/complex() read the format() text of every printed coefficient back; no white space, brackets, colon or leading + in that text): the contract itself is checked on the real functions by the correspondence run, not proved',
     'canonical-form hypothesis (simplify cls key = (1, key)) of the round-trip theorems: keys stored by the operator classes satisfy it (C01); it is a hypothesis here',
     'MolecularData.save / load: no Model, no theorem (oracle on random attribute assignments only)',
     'marshal is a contract (load(dump(x)) = x); the binary round trip theorem is stated over the value handed to marshal.dump',
@@ -180,6 +180,9 @@ def exact_terms(op, drop_small=False):
 
 # ---------------------------------------------------------------- number tables for the Model
 
+FLOAT_MODEL = {'checked': 0, 'bad': []}
+
+
 def tables_for(ctx, strings):
     """float(s) / complex(s) of every text the Model's parser will hand to them"""
     strings = list(dict.fromkeys(strings))
@@ -194,6 +197,14 @@ def tables_for(ctx, strings):
                     floats[txt] = to_gq(float(txt))
             except (ValueError, OverflowError):
                 pass
+    # the Lean Model of float() on integer literals must agree with the real float() on every integer literal of the table
+    import re
+    lits = [k for k in floats if re.fullmatch(r'-?[0-9]+', k)]
+    if lits:
+        for k, m in zip(lits, ctx.driver.run([{'op': 'c20.float_int_model', 's': k} for k in lits])):
+            FLOAT_MODEL['checked'] += 1
+            if m != floats[k]:
+                FLOAT_MODEL['bad'].append((k, floats[k], m))
     return {'floats': [[k, v] for k, v in floats.items()], 'complexes': [[k, v] for k, v in complexes.items()]}
 
 
@@ -941,4 +952,9 @@ def replay(ctx, payload):
 
 
 def run(ctx):
-    return [stream_text(ctx), stream_files(ctx), stream_molecule(ctx)]
+    FLOAT_MODEL['checked'], FLOAT_MODEL['bad'] = 0, []
+    streams = [stream_text(ctx), stream_files(ctx), stream_molecule(ctx)]
+    streams[0].count('float() on integer literals vs the Lean model (hypothesis of coef_contract_int)', FLOAT_MODEL['checked'])
+    for k, py, m in FLOAT_MODEL['bad']:
+        streams[0].disagree('float(s) on an integer literal', {'s': k}, py, m)
+    return streams
